@@ -208,7 +208,8 @@ def run(ctx):
         r = TermBuilder(we, prog).return_term()
         d = dict(r[3]) if r[0] == "adt" else {}
         e_p = ("param", 1, "epsilon")
-        agg_bb = [bi for bi, blk in enumerate(we.blocks) for st in blk.stmts if st.k == "assign" and st.rv.k == "aggregate" and st.rv.j.get("adt") == LC]
+        from .common import construction_blocks
+        agg_bb = construction_blocks(ctx, we, LC)
         env = float_facts_to_env(atomic_facts(we, prog, agg_bb[0])) if agg_bb else {}
         iv = env.get(repr(e_p))
         ctx.check(d.get("width") == ("cast", "usize", mk("ceil", mk("Div", const(1.0), e_p))) and d.get("epsilon") == e_p and d.get("n") == const(0) and iv is not None and iv.gt(0) and iv.lt(1),
@@ -217,7 +218,8 @@ def run(ctx):
         r = TermBuilder(ww, prog).return_term()
         d = dict(r[3]) if r[0] == "adt" else {}
         w_p = ("param", 1, "width")
-        agg_bb = [bi for bi, blk in enumerate(ww.blocks) for st in blk.stmts if st.k == "assign" and st.rv.k == "aggregate" and st.rv.j.get("adt") == LC]
+        from .common import construction_blocks
+        agg_bb = construction_blocks(ctx, ww, LC)
         lo = int_bounds(atomic_facts(ww, prog, agg_bb[0]), w_p)[0] if agg_bb else None
         ctx.check(d.get("epsilon") == mk("Div", const(1.0), ("cast", "f64", w_p)) and d.get("width") == w_p and d.get("n") == const(0) and lo is not None and lo >= 1,
                   "R09-epsilon-width", ww.key, ww, "epsilon = 1/width, width >= 1", "with_width builds %s (width >= %s)" % (fmt(r), lo))
@@ -298,8 +300,20 @@ def entry_combinators(ctx, add, tb, paths):
         if not (init_false and all(x == ("clobber", flag_local) for x in alts)):
             probs.append("add returns %s, expected the flag that only the inserting closure sets" % fmt(r)[:100])
     else:
-        # without a flag the result must come from the map itself — not recognised
-        probs.append("add returns %s: cannot relate it to `the key was new`" % fmt(r)[:100])
+        # no flag: the result must be `the entry was vacant` on every path (e.g. `matches!(slot, Entry::Vacant(_))` taken before
+        # the entry is consumed) — decided on the paths, which assume Occupied / Vacant at the entry() call
+        n_v = n_o = 0
+        for p in paths:
+            asm = [e["variant"] for e in p.events if e["kind"] == "assume" and e["of"]["name"] == "entry"]
+            if len(asm) != 1:
+                probs.append("a path looks the entry up %d times" % len(asm))
+            elif (asm[0] == "Vacant") != (p.ret == "true") or p.ret not in ("true", "false"):
+                probs.append("add returns %s for %s entry" % (p.ret, "a vacant" if asm[0] == "Vacant" else "an occupied"))
+            else:
+                n_v += asm[0] == "Vacant"
+                n_o += asm[0] == "Occupied"
+        if not (n_v and n_o):
+            probs.append("add returns %s: cannot relate it to `the key was new`" % fmt(r)[:100])
     return {"vacant": vac, "occupied": occ, "problems": probs}
 
 
